@@ -10,17 +10,18 @@ import OnsagerModel.C36
 namespace Onsager.C36
 open Generated.C36
 
-/-- every `__ne__` has a recognised form; for the discrete types and GroupOp it is the negation form.
-    (vacancyThermoKinetics: negation form, or the bare-name form that raises — finding F1.) -/
+/-- every `__ne__` is the negation form (Cluster: derived by Python).  vacancyThermoKinetics used the
+    bare-name form that raises `NameError` (finding F1, fixed in /repo a7fc25b); a regression breaks this
+    obligation and the `!=`-is-negation oracle. -/
 theorem src_ne_forms :
-    neGroupOp = 0 ∧ nePairState = 0 ∧ neClusterSite = 0 ∧ neCluster = 3 ∧ (neVTK = 0 ∨ neVTK = 1) := by
+    neGroupOp = 0 ∧ nePairState = 0 ∧ neClusterSite = 0 ∧ neCluster = 3 ∧ neVTK = 0 := by
   decide
 
-/-- hence `!=` is the negation of `==` for GroupOp, PairState, ClusterSite, Cluster -/
+/-- hence `!=` is the negation of `==` for all five types -/
 theorem src_ne_is_negation (e : Bool) :
     neModel neGroupOp e = .ok (!e) ∧ neModel nePairState e = .ok (!e) ∧
-    neModel neClusterSite e = .ok (!e) ∧ neModel neCluster e = .ok (!e) := by
-  cases e <;> exact ⟨rfl, rfl, rfl, rfl⟩
+    neModel neClusterSite e = .ok (!e) ∧ neModel neCluster e = .ok (!e) ∧ neModel neVTK e = .ok (!e) := by
+  cases e <;> exact ⟨rfl, rfl, rfl, rfl, rfl⟩
 
 /-- `__eq__` compares exactly the fields the model compares, in the same way -/
 theorem src_eq_fields :
@@ -39,5 +40,10 @@ theorem src_hash_within_exact :
     hashPairState = ["R", "i", "j"] ∧ hashClusterSite = ["R", "ci"] ∧ hashGroupOp = ["indexmap", "rot"] ∧
     hashVTK = ["betaene", "betaeneT", "pre", "preT"] := by
   decide
+
+/-- the key structure of `Cluster.__init__` is one of the two recognised forms (transition pair of a
+    non-vacancy transition-state cluster unmarked, or marked with `(-2,)`); the model's `Cluster.make` is
+    instantiated with this fact by the driver, and the cluster theorems hold for either value. -/
+theorem src_cluster_key_form : tsPairMark = 0 ∨ tsPairMark = 1 := by decide
 
 end Onsager.C36
